@@ -3,6 +3,7 @@ open PdModel.OpCtl PdModel.Spec
 #print axioms C09.complaints_nil_iff
 #print axioms C09.checkEvent_ok_iff
 #print axioms validTrans_is_the_stated_matrix
+#print axioms status_moves_are_atomic_sections
 #print axioms to_moves_along_validTrans
 #print axioms end_status_is_final
 #print axioms status_moves_only_along_validTrans
